@@ -17,19 +17,33 @@ Decided here (truth-table equality over all instantiations is value-level and no
   C19-R4  coverage: every variable with at least one regulator is converted, variables without regulators are skipped and
           nothing else is touched; the implicit case expands over all regulators as variables, in the network's order."""
 import evalnode as E
+import norm
+import pm
+import q
+import render
 import semantics as sem
 import terms
+from norm import last
+from pm import C, OK, SOME, V, P, ANY, ALT
 from terms import subterms, pt
 
 LEVEL = "other"
 BIN = "convert_aeon_to_bnet"
 
 
-def fmt_pieces(t):
-    for x in [t] + list(subterms(t)):
-        if x[0] == "fmt":
-            return x[1]
-    return None
+def pieces_of(t):
+    return render.string_pieces(t)
+
+
+def is_prefix_recipe(t, name_call, of):
+    """t prints `<name>_` where <name> = name_call(.., of)."""
+    ps = pieces_of(t)
+    if len(ps) != 2 or not isinstance(ps[0], tuple) or ps[1] != "_":
+        return False, ps
+    n = pm.strip(ps[0][1])
+    ok = n[0] == "call" and last(n[1]) == name_call and any(pm.strip(y) == of for y in [n] + list(subterms(n)))
+    # the name may be looked up through get_parameter / get_variable
+    return ok, ps
 
 
 def run(prog, rep):
@@ -43,165 +57,143 @@ def run(prog, rep):
     if any(n not in fns for n in need):
         rep.unresolved("C19-R1", "functions", "", f"converter functions not found: {[n for n in need if n not in fns]}")
         return
-    eng = terms.Engine(prog, inline=False)
+    opaque = [fns[n].path for n in ("flatten_fn_update", "explode_function", "flatten_update_function")]
+    eng = terms.Engine(prog, inline=True, hooks=E.Hooks([""], opaque_names=opaque)) if False else terms.Engine(prog, inline=False)
     ff, fu, ex, mn = (fns[n] for n in ("flatten_fn_update", "flatten_update_function", "explode_function", "main"))
     for f in (ff, fu, ex, mn):
         rep.functions.add(f.qual)
-    # ---- flatten_fn_update: one arm per variant
-    s = eng.summary(ff)
+    is_flatten = lambda child: C("flatten_fn_update", ANY, P(lambda t: t == child))          # noqa: E731
+    # ---- flatten_fn_update: specialised for every FnUpdate variant
     pn = ff.param_names()
-    upd = ("param", pn[1])
-    ret = s.ret
-    variants = {"Const", "Var", "Not", "Param", "Binary"}
-    arms = {}
-    if ret[0] == "switch" and ret[1] == upd:
-        for (d, g), v in ret[2]:
-            if d[0] == "var":
-                arms[str(d[1]).rsplit("::", 1)[-1]] = v
-            elif d[0] == "wild":
-                arms["_"] = v
-    rep.check(set(arms) == variants, "C19-R1", "flatten_fn_update/arms", f"{ff.file}:{ff.line}", "one arm per FnUpdate variant, no wildcard",
-              f"arms: {sorted(arms)}; expected exactly {sorted(variants)}")
-    if set(arms) == variants:
-        def proj(v, i):
-            return ("proj", upd, f"biodivine_lib_param_bn::FnUpdate::{v}", i)
-
-        def is_rec(t, child):
-            return t[0] in ("call", "rec") and t[1].endswith("flatten_fn_update") and t[2][-1] == child
-        c_ok = arms["Const"][0] == "ctor" and str(arms["Const"][1]).endswith("Const") and arms["Const"][2] == (proj("Const", 0),)
-        v_ok = arms["Var"][0] == "ctor" and str(arms["Var"][1]).endswith("Var") and arms["Var"][2] == (proj("Var", 0),)
-        n = arms["Not"]
-        n_ok = n[0] == "call" and n[1].endswith("negation") and len(n[2]) == 1 and is_rec(n[2][0], proj("Not", 0))
-        b = arms["Binary"]
-        b_ok = b[0] == "ctor" and str(b[1]).endswith("Binary") and len(b[2]) == 3 and b[2][0] == proj("Binary", 0) and is_rec(b[2][1], proj("Binary", 1)) and is_rec(b[2][2], proj("Binary", 2))
-        p = arms["Param"]
-        p_ok = p[0] == "call" and p[1].endswith("explode_function") and p[2][1] == proj("Param", 1)
-        rep.check(c_ok and v_ok and n_ok and b_ok, "C19-R1", "flatten_fn_update/rebuild", f"{ff.file}:{ff.line}", "Const / Var copied; Not / Binary rebuilt from flattened children (same operator, same order)",
-                  f"Const={c_ok} Var={v_ok} Not={n_ok} Binary={b_ok}")
-        rep.check(p_ok, "C19-R1", "flatten_fn_update/param", f"{ff.file}:{ff.line}", "Param(id, args) -> explode_function(raw args, prefix)",
-                  f"uninterpreted function is handled by {sem.short(p, 160)}: explode_function must receive the raw argument list (it flattens each argument itself, exactly once)")
-        pieces = fmt_pieces(p[2][2]) if p_ok else None
-        good = pieces is not None and len(pieces) == 2 and isinstance(pieces[0], tuple) and pieces[1] == "_" and "get_name" in pt(pieces[0][1]) and any(
-            y == proj("Param", 0) for y in subterms(pieces[0][1]))
-        rep.check(good, "C19-R3", "flatten_fn_update/prefix", f"{ff.file}:{ff.line}", "prefix = `<parameter name>_`",
-                  f"name prefix for an explicit function is {pieces}: it must be the parameter's name followed by the separator `_`")
+    FN = "biodivine_lib_param_bn::FnUpdate::"
+    a, b, op, idv, args = ("param", "#a"), ("param", "#b"), ("param", "#op"), ("param", "#id"), ("param", "#args")
+    shapes = {"Const": ("ctor", FN + "Const", (a,)), "Var": ("ctor", FN + "Var", (a,)), "Not": ("ctor", FN + "Not", (a,)),
+              "Binary": ("ctor", FN + "Binary", (op, a, b)), "Param": ("ctor", FN + "Param", (idv, args))}
+    nz = norm.Normalizer()
+    got = {}
+    for v, sh in shapes.items():
+        sp = eng.specialise(ff, {pn[1]: sh})
+        got[v] = nz(sp.ret) if sp is not None and sp.ret is not None else None
+    where = f"{ff.file}:{ff.line}"
+    rep.check(all(x is not None and x != terms.NEVER for x in got.values()), "C19-R1", "flatten_fn_update/arms", where, "every FnUpdate variant is handled",
+              f"variants without a value: {[v for v, x in got.items() if x is None or x == terms.NEVER]}")
+    if all(x is not None for x in got.values()):
+        unbox = lambda t: pm.strip(t)          # noqa: E731
+        c_ok = pm.match(("ctor", P(lambda x: True), (P(lambda t: t == a),)), got["Const"]) is not None and last(got["Const"][1]) == "Const"
+        v_ok = pm.match(("ctor", P(lambda x: True), (P(lambda t: t == a),)), got["Var"]) is not None and last(got["Var"][1]) == "Var"
+        n_ok = pm.match(C("negation", is_flatten(a)), got["Not"]) is not None or \
+            (got["Not"][0] == "ctor" and last(got["Not"][1]) == "Not" and pm.match(is_flatten(a), got["Not"][2][0]) is not None)
+        bt = got["Binary"]
+        b_ok = bt[0] == "ctor" and last(bt[1]) == "Binary" and len(bt[2]) == 3 and pm.strip(bt[2][0]) == op and pm.match(is_flatten(a), bt[2][1]) is not None \
+            and pm.match(is_flatten(b), bt[2][2]) is not None
+        rep.check(c_ok and v_ok and n_ok and b_ok, "C19-R1", "flatten_fn_update/rebuild", where, "Const / Var copied; Not / Binary rebuilt from flattened children (same operator, same order)",
+                  f"Const={c_ok} Var={v_ok} Not={n_ok} Binary={b_ok}: {sem.short(got['Binary'], 160)}")
+        e = pm.match(C("explode_function", ANY, P(lambda t: t == args), V("prefix")), got["Param"])
+        rep.check(e is not None, "C19-R1", "flatten_fn_update/param", where, "Param(id, args) -> explode_function(raw args, prefix)",
+                  f"uninterpreted function is handled by {sem.short(got['Param'], 160)}: explode_function must receive the raw argument list (it flattens each argument itself, exactly once)")
+        if e is not None:
+            good, ps = is_prefix_recipe(e["prefix"], "get_name", idv)
+            rep.check(good, "C19-R3", "flatten_fn_update/prefix", where, "prefix = `<parameter name>_`",
+                      f"name prefix for an explicit function is {render.shape(ps)}: it must be the parameter's name followed by the separator `_`")
     # ---- explode_function
     s = eng.summary(ex)
     pn = ex.param_names()
     net, regs, prefix = (("param", x) for x in pn)
     ret = s.ret
-    good = ret[0] == "ite" and ret[1] == ("call", ret[1][1], (regs,)) and ret[1][1].endswith("is_empty")
-    if not good:
-        rep.unresolved("C19-R2", "explode_function/shape", f"{ex.file}:{ex.line}", f"result is not `if regulators.is_empty() {{..}} else {{..}}`: {sem.short(ret, 160)}")
+    where = f"{ex.file}:{ex.line}"
+    EMPTY = ("call", norm.EMPTY, (regs,))
+    if not (ret[0] == "ite" and ret[1] == EMPTY):
+        rep.unresolved("C19-R2", "explode_function/shape", where, f"result is not a case split on `regulators is empty`: {sem.short(ret, 160)}")
     else:
         base, step = ret[2], ret[3]
-        # base case
-        b_ok = base[0] == "ctor" and str(base[1]).endswith("Param") and len(base[2]) == 2 and base[2][1][0] == "call" and base[2][1][1].endswith("::new") and not base[2][1][2]
-        look = base[2][0] if b_ok else None
-        l_ok = False
-        if b_ok:
-            finds = [y for y in [look] + list(subterms(look)) if y[0] == "call" and isinstance(y[1], str) and y[1].endswith("find_parameter") and len(y[2]) == 2]
-            adds = [y for y in [look] + list(subterms(look)) if y[0] == "call" and isinstance(y[1], str) and y[1].endswith("add_parameter") and len(y[2]) == 3]
-            l_ok = (len(finds) >= 1 and finds[0][2][1] == prefix and len(adds) == 1 and adds[0][2][1] == prefix and adds[0][2][2] == ("lit", 0)
-                    and look[0] == "hof" and look[1] == "unwrap_or_else")
-        rep.check(b_ok and l_ok, "C19-R2", "explode_function/base", f"{ex.file}:{ex.line}",
+        find = C("find_parameter", ANY, P(lambda t: t == prefix))
+        add = OK(C("add_parameter", ANY, P(lambda t: t == prefix), P(lambda t: t == ("lit", 0))))
+        look = ("ite", ("matches", find, norm.SOME_DESC), SOME(find), add)
+        b_ok = base[0] == "ctor" and last(base[1]) == "Param" and len(base[2]) == 2 and terms.is_fresh_collection(pm.strip(base[2][1])) and pm.match(look, base[2][0]) is not None
+        rep.check(b_ok, "C19-R2", "explode_function/base", where,
                   "base case: Param(find_parameter(prefix) or add_parameter(prefix, 0), [])", f"base case is {sem.short(base, 200)}")
-        # step
         r0 = ("index", regs, ("lit", 0))
         rest = ("index", regs, ("struct", "std::ops::RangeFrom", (("start", ("lit", 1)),)))
-        flat = [y for y in subterms(step) if y[0] in ("call", "rec") and y[1].endswith("flatten_fn_update") and y[2][-1] == r0]
+        flat = [y for y in subterms(step) if pm.match(is_flatten(r0), y) is not None]
         raw_uses = 0
-        # every occurrence of regulators[0] must be the argument of flatten_fn_update
-        def count_raw(t, inside_flat=False):
+
+        def count_raw(t):
             nonlocal raw_uses
             if not isinstance(t, tuple) or not t:
                 return
-            if t == r0 and not inside_flat:
+            if t == r0:
                 raw_uses += 1
                 return
             if t[0] in ("call", "rec") and isinstance(t[1], str) and t[1].endswith("flatten_fn_update"):
-                for a in t[2][:-1]:
-                    count_raw(a, False)
-                if t[2][-1] != r0:
-                    count_raw(t[2][-1], False)
+                for x in t[2][:-1]:
+                    count_raw(x)
+                if pm.strip(t[2][-1]) != r0:
+                    count_raw(t[2][-1])
                 return
             if t[0] == "mut":
-                count_raw(t[1], inside_flat)       # effects on the network handle are not values of the result
+                count_raw(t[1])       # effects on the network handle are not values of the result
                 return
             for x in (t[1:] if isinstance(t[0], str) else t):
                 if isinstance(x, tuple):
-                    count_raw(x, inside_flat)
+                    count_raw(x)
         count_raw(step)
-        rep.check(bool(flat) and raw_uses == 0, "C19-R1", "explode_function/no-raw-argument", f"{ex.file}:{ex.line}",
+        rep.check(bool(flat) and raw_uses == 0, "C19-R1", "explode_function/no-raw-argument", where,
                   "the first argument enters the result only through flatten_fn_update",
                   f"the raw argument expression regulators[0] is embedded {raw_uses} time(s) without being flattened: a nested uninterpreted call such as f(g(b)) survives and to_bnet panics")
-        # Shannon shape: and(implies(R, E1), implies(negation(R), E0))
+        R = is_flatten(r0)
+
+        def branch(e_):
+            m = pm.match(C("explode_function", ANY, P(lambda t: t == rest), V("p")), e_)
+            if m is None:
+                return None
+            ps = pieces_of(m["p"])
+            if len(ps) == 2 and isinstance(ps[0], tuple) and pm.strip(ps[0][1]) == prefix and isinstance(ps[1], str):
+                return ps[1]
+            return None
         sh_ok = False
         why = f"step is {sem.short(step, 220)}"
-        if step[0] == "call" and step[1].endswith("::and") and len(step[2]) == 2:
-            a, b2 = step[2]
-            if a[0] == "call" and a[1].endswith("implies") and b2[0] == "call" and b2[1].endswith("implies"):
-                ra, ea = a[2]
-                rb, eb = b2[2]
-
-                def is_flat_r(t):
-                    return t[0] in ("call", "rec") and t[1].endswith("flatten_fn_update") and t[2][-1] == r0
-
-                def branch(e):
-                    if e[0] in ("call", "rec") and e[1].endswith("explode_function") and e[2][1] == rest:
-                        pcs = fmt_pieces(e[2][2])
-                        if pcs and len(pcs) == 2 and isinstance(pcs[0], tuple) and pcs[0][1] == prefix and isinstance(pcs[1], str):
-                            return pcs[1]
-                    return None
-                pos_first = is_flat_r(ra) and rb[0] == "call" and rb[1].endswith("negation") and is_flat_r(rb[2][0])
-                neg_first = is_flat_r(rb) and ra[0] == "call" and ra[1].endswith("negation") and is_flat_r(ra[2][0])
-                if pos_first:
-                    sh_ok = branch(ea) == "1" and branch(eb) == "0"
-                    why = f"true branch extends the prefix by {branch(ea)!r}, false branch by {branch(eb)!r}; expected '1' / '0' over the remaining arguments"
-                elif neg_first:
-                    sh_ok = branch(ea) == "0" and branch(eb) == "1"
-                    why = f"false branch extends the prefix by {branch(ea)!r}, true branch by {branch(eb)!r}"
-        rep.check(sh_ok, "C19-R2", "explode_function/shannon", f"{ex.file}:{ex.line}", "(r => explode(rest, prefix+'1')) & (!r => explode(rest, prefix+'0'))", why)
+        m1 = pm.match(C("and", C("implies", R, V("e1")), C("implies", C("negation", R), V("e0"))), step)
+        m2 = pm.match(C("and", C("implies", C("negation", R), V("e0")), C("implies", R, V("e1"))), step)
+        m = m1 or m2
+        if m is not None:
+            sh_ok = branch(m["e1"]) == "1" and branch(m["e0"]) == "0"
+            why = f"true branch extends the prefix by {branch(m['e1'])!r}, false branch by {branch(m['e0'])!r}; expected '1' / '0' over the remaining arguments"
+        rep.check(sh_ok, "C19-R2", "explode_function/shannon", where, "(r => explode(rest, prefix+'1')) & (!r => explode(rest, prefix+'0'))", why)
     # ---- flatten_update_function
     s = eng.summary(fu)
     pn = fu.param_names()
     net, var = ("param", pn[0]), ("param", pn[1])
-    early = [r for r in s.returns if r[5] == "return"]
-    skip_ok = len(early) == 1 and len(early[0][1]) == 1 and early[0][1][0][0] == "if" and early[0][1][0][2] and early[0][1][0][1][0] == "call" and \
-        early[0][1][0][1][1].endswith("is_empty") and early[0][1][0][1][2][0][0] == "call" and early[0][1][0][1][2][0][1].endswith("regulators") and early[0][1][0][1][2][0][2][-1] == var
-    rep.check(skip_ok, "C19-R4", "flatten_update_function/skip", f"{fu.file}:{fu.line}", "skipped iff the variable has no regulators",
-              "the skip condition is not exactly `network.regulators(variable).is_empty()`")
-    sets = [x for x in s.sites if x.kind == "mcall" and x.name == "set_update_function"]
-    good = len(sets) == 1 and sets[0].args[1] == var
+    where = f"{fu.file}:{fu.line}"
+    sets = [x for x in s.all_sites() if x.kind == "mcall" and x.name == "set_update_function"]
+    good = len(sets) == 1 and pm.strip(sets[0].args[1]) == var
     why = f"{len(sets)} set_update_function calls"
     if good:
+        REGS = C("regulators", ANY, P(lambda t: t == var))
+        conds = [(t, pol) for t, pol in q.conds(sets[0].pc) if not (q.is_ok_test(t) is not None)]
+        skip_ok = len(conds) == 1 and conds[0][1] is False and pm.match(("call", norm.EMPTY, (REGS,)), conds[0][0]) is not None
+        rep.check(skip_ok, "C19-R4", "flatten_update_function/skip", where, "converted iff the variable has at least one regulator",
+                  f"the function is installed under {[(sem.short(t, 60), p_) for t, p_ in conds]}: it must be installed exactly when `network.regulators(variable)` is not empty")
         val = sets[0].args[2]
-        inner = val[2][0] if val[0] == "ctor" and str(val[1]).endswith("Some") else None
-        good = inner is not None and inner[0] == "ite"
-        why = f"installed value {sem.short(val, 120)}"
+        inner = val[2][0] if val[0] == "ctor" and last(val[1]) == "Some" else None
+        UPD = C("get_update_function", ANY, P(lambda t: t == var))
+        m = pm.match(("ite", ("matches", UPD, norm.SOME_DESC), C("flatten_fn_update", ANY, SOME(UPD)), C("explode_function", ANY, V("regs"), V("prefix"))), inner) if inner else None
+        good = m is not None
+        why = f"installed value {sem.short(val, 200)}: expected flatten_fn_update(explicit function) if there is one, explode_function(regulators as variables) otherwise"
         if good:
-            cond, a, b = inner[1], inner[2], inner[3]
-            explicit = a[0] in ("call", "rec") and a[1].endswith("flatten_fn_update") and "get_update_function" in pt(a[2][-1])
-            implicit = b[0] in ("call", "rec") and b[1].endswith("explode_function")
-            good = explicit and implicit and cond[0] == "matches" and "get_update_function" in pt(cond[1])
-            why = f"explicit function flattened={explicit}, implicit function exploded={implicit}"
-            if good:
-                regs_arg = b[2][1]
-                hof = [y for y in [regs_arg] + list(subterms(regs_arg)) if y[0] == "hof" and y[1] == "map"]
-                mk = hof and hof[0][3][0] == "call" and hof[0][3][1].endswith("mk_var") and "regulators" in pt(hof[0][2]) and terms.mentions_param(hof[0][2], pn[1])
-                pcs = fmt_pieces(b[2][2])
-                pre = pcs is not None and len(pcs) == 2 and isinstance(pcs[0], tuple) and pcs[1] == "_" and "get_variable_name" in pt(pcs[0][1]) and terms.mentions_param(pcs[0][1], pn[1])
-                rep.check(bool(mk), "C19-R4", "flatten_update_function/implicit-arguments", f"{fu.file}:{fu.line}", "implicit function = unknown function of all regulators, as variables",
-                          "the implicit update function is not expanded over all regulators of the variable as plain variables")
-                rep.check(pre, "C19-R3", "flatten_update_function/prefix", f"{fu.file}:{fu.line}", "prefix = `<variable name>_`",
-                          f"name prefix for an implicit function is {pcs}: it must be the variable's name followed by the separator `_`")
-    rep.check(good, "C19-R1", "flatten_update_function/installed", sets[0].where() if sets else f"{fu.file}:{fu.line}",
+            ra = m["regs"]
+            mk = ra[0] == "collect" and pm.match(REGS, ra[1]) is not None and pm.match(C("mk_var", P(lambda t: t == ("elem", ra[1]))), ra[2]) is not None
+            rep.check(bool(mk), "C19-R4", "flatten_update_function/implicit-arguments", where, "implicit function = unknown function of all regulators, as variables",
+                      f"the implicit update function is expanded over {sem.short(ra, 120)}: expected all regulators of the variable as plain variables, in the network's order")
+            pre, ps = is_prefix_recipe(m["prefix"], "get_variable_name", var)
+            rep.check(pre, "C19-R3", "flatten_update_function/prefix", where, "prefix = `<variable name>_`",
+                      f"name prefix for an implicit function is {render.shape(ps)}: it must be the variable's name followed by the separator `_`")
+    rep.check(good, "C19-R1", "flatten_update_function/installed", sets[0].where() if sets else where,
               "installs flatten_fn_update(explicit function) or explode_function(regulators as variables)", why)
     # ---- main: every variable
     s = eng.summary(mn)
-    calls = [x for x in s.sites if x.kind == "call" and x.is_call_to("flatten_update_function")]
-    fors = [x for x in s.sites if x.kind == "for"]
-    good = len(calls) == 1 and len(fors) == 1 and calls[0].args[1] == ("elem", fors[0].args[0]) and fors[0].args[0][0] == "call" and fors[0].args[0][1].endswith("::variables")
+    calls = [x for x in s.all_sites() if x.kind == "call" and x.is_call_to("flatten_update_function")]
+    good = len(calls) == 1 and calls[0].args[1][0] == "elem" and pm.match(C("variables", ANY), calls[0].args[1][1]) is not None \
+        and not [1 for t, pol in q.conds(calls[0].pc) if q.is_ok_test(t) is None]
     rep.check(good, "C19-R4", "main/all-variables", f"{mn.file}:{mn.line}", "flatten_update_function for every variable of the model",
               "not every variable of the model is converted")
     rep.floor("C19-R1", 5)
